@@ -59,7 +59,7 @@ Prefix(s, n) == SubSeq(s, 1, Min2(n, Len(s)))
 NoClose == [code |-> -1, msg |-> "", det |-> "0", md |-> MD0]
 NoRes   == [cls |-> "none", code |-> 0, msg |-> "", det |-> "0"]
 
-WS0 == [ rpc |-> 0, news |-> 0, rev |-> -1, win |-> 0, method |-> "", md |-> MD0,
+WS0 == [ rpc |-> 0, news |-> 0, rev |-> -1, win |-> 0, method |-> "", mshape |-> "", md |-> MD0,
          first |-> "",                \* kind of the first c2s frame of this id
          \* client-to-server frames as sent
          cOpen |-> -1, cEnv |-> <<>>, cBytes |-> 0, cHalf |-> 0, cCancel |-> 0, cWuSum |-> 0,
@@ -73,7 +73,10 @@ WS0 == [ rpc |-> 0, news |-> 0, rev |-> -1, win |-> 0, method |-> "", md |-> MD0
          hdrDeliv |-> FALSE, sPend |-> <<>>, sDataSum |-> 0, sOpenD |-> -1, sMsgsD |-> 0, closeDeliv |-> FALSE,
          sWuD |-> 0, cViolD |-> FALSE,
          \* first terminal cause seen by the tunnel client for this stream
-         cliEnd |-> "" ]
+         cliEnd |-> "",
+         \* status codes that stream-level protocol violations delivered so far justify (raw peers);
+         \* immediate: the endpoint must fail the stream on delivery, without any application call
+         sViol |-> {}, sViolNow |-> FALSE, cViol |-> {}, cViolNow |-> FALSE ]
 
 RP0 == [ shape |-> "", sid |-> 0, cstart |-> FALSE, started |-> FALSE, startFail |-> FALSE,
          t0 |-> 0, timeout |-> 0, method |-> "", mdSent |-> MD0, opts |-> <<>>,
@@ -94,7 +97,10 @@ Tun0 == [ opened |-> FALSE, started |-> FALSE, startFail |-> FALSE, chdone |-> F
           lastNew |-> 0, s2cSent |-> 0, settingsSent |-> 0, settingsDeliv |-> FALSE, winC2S |-> W,
           shutdown |-> FALSE, gstopRet |-> FALSE, stopCalled |-> FALSE, stopRet |-> FALSE,
           baseG |-> -1, fc |-> TRUE, teardown |-> FALSE, marshalFail |-> FALSE,
-          firstCause |-> "", lastBlocked |-> <<>>, doneAtTeardown |-> TRUE ]
+          firstCause |-> "", lastBlocked |-> <<>>, doneAtTeardown |-> TRUE,
+          \* what the tunnel endpoints must have concluded from the frames delivered so far
+          srvLastSeen |-> -1, srvMustDie |-> FALSE, cliMustDie |-> FALSE, cliMustFailStart |-> FALSE,
+          s2cDeliv |-> 0, idleC2S |-> -1, idleS2C |-> -1, takenC2S |-> 0, takenS2C |-> 0, revUsed |-> -1 ]
 
 Q0 == [ at |-> FALSE, final |-> FALSE, blocked |-> <<>>, h |-> <<>>, parked |-> <<>>, ctab |-> -1, stab |-> 0,
         nsrv |-> 0, qc2s |-> 0, qs2c |-> 0, g |-> -1, chdone |-> FALSE ]
@@ -114,6 +120,11 @@ RealSrv == cfg.rawSrv = ""
 \* and neither has disabled it.
 FCExpected == /\ ~cfg.cliNoFC /\ ~cfg.srvNoFC
               /\ cfg.rawCli # "legacy" /\ cfg.rawSrv # "legacy"
+
+\* the protocol revision a real tunnel client must use: the highest both ends support
+ExpectedRev == IF RealSrv THEN (IF FCExpected THEN 1 ELSE 0)
+               ELSE IF cfg.rawSrv = "legacy" THEN 0
+               ELSE tun.revUsed
 
 OInit ==
   /\ cfg = Cfg0
@@ -140,7 +151,7 @@ TagOf(e) == IF e.rpc # 0 THEN e.rpc
 SendC2S(e, w) ==
   LET s == e.sid IN
   CASE e.kind = "new" ->
-        [ w EXCEPT !.news = @ + 1, !.rpc = TagOf(e), !.rev = e.rev, !.win = e.win, !.method = e.method,
+        [ w EXCEPT !.news = @ + 1, !.rpc = TagOf(e), !.rev = e.rev, !.win = e.win, !.method = e.method, !.mshape = e.mshape,
                    !.md = e.md, !.first = IF @ = "" THEN "new" ELSE @,
                    \* the RPC's context may have ended before its stream reached the wire
                    !.cliEnd = IF @ = "" /\ TagOf(e) \in DOMAIN rp /\ rp[TagOf(e)].localCause # {}
@@ -167,7 +178,7 @@ BadC2S(e, w) ==
   CASE e.kind = "new" ->
            Flag(s <= tun.lastNew, "ids.increasing", s)
       \cup Flag(w.news > 0, "ids.dup", s)
-      \cup Flag(e.rev # (IF FCExpected THEN 1 ELSE 0) /\ RealSrv, "neg.rev", s)
+      \cup Flag(ExpectedRev >= 0 /\ e.rev # ExpectedRev, "neg.rev", s)
     [] e.kind = "msg" ->
            Flag(w.news = 0, "newfirst", s)
       \cup Flag(w.cOpen > 0, "framing.envelope-inside-message", s)
@@ -292,18 +303,88 @@ DelivS2C(f, w) ==
     [] f.kind = "wu" -> [ w EXCEPT !.sWuD = @ + f.len ]
     [] OTHER -> w
 
+(* What a frame delivered to the tunnel SERVER obliges it to do (the documented outcome     *)
+(* classes): a frame that opens an id not greater than all ids seen, or any other frame  *)
+(* for an id greater than all ids seen, is a tunnel-level violation; everything else is  *)
+(* at most a stream-level matter.                                                        *)
+SrvAlive == ~tun.serveRet /\ ~tun.srvMustDie
+SrvTunnelViolation(f) == IF f.kind = "new" THEN f.sid <= tun.srvLastSeen ELSE f.sid > tun.srvLastSeen
+
+\* status code with which a new stream must be refused (0: accepted)
+NewRefusal(f) ==
+  IF tun.shutdown THEN 14
+  ELSE IF f.rev \notin {0, 1} THEN 14
+  ELSE IF f.mclass \in {"empty", "malformed"} THEN 3
+  ELSE IF f.mclass = "unknown" THEN 12
+  ELSE 0
+
+\* bytes the server's receiver of stream w still has room for (no credit call is in progress at
+\* the moments frames are delivered in stepped runs)
+SrvRoom(w) == W - (w.cDataSum - w.sWuSum)
+CliRoom(w) == W - (w.sDataSum - w.cWuSum)
+
+SrvStreamViolation(f, w) ==
+  \* only for a stream the server still serves
+  IF ~w.newDeliv \/ w.sClose > 0 \/ w.cancelDeliv THEN [codes |-> {}, now |-> FALSE]
+  ELSE CASE f.kind = "junk" -> [codes |-> {2}, now |-> TRUE]
+         [] f.kind \in {"msg", "more"} /\ ~w.halfDeliv /\ w.rev = 1 /\ f.len > SrvRoom(w) -> [codes |-> {8}, now |-> TRUE]
+         [] f.kind = "msg" /\ ~w.halfDeliv /\ (w.cOpenD > 0 \/ f.len > f.size) -> [codes |-> {3}, now |-> FALSE]
+         [] f.kind = "more" /\ ~w.halfDeliv /\ (w.cOpenD <= 0 \/ f.len > w.cOpenD) -> [codes |-> {3}, now |-> FALSE]
+         [] f.kind \in {"msg", "more"} /\ ~w.halfDeliv /\ Completes(w.cOpenD, f) /\ w.cMsgsD >= 1
+              /\ w.mshape \in {"unary", "sstream"} -> [codes |-> {3}, now |-> FALSE]
+         [] OTHER -> [codes |-> {}, now |-> FALSE]
+
+CliAlive == ~tun.chdone /\ ~tun.cliMustDie /\ ~tun.startFail
+CliTunnelViolation(f) == tun.lastNew = 0 \/ f.sid > tun.lastNew
+
+CliStreamViolation(f, w) ==
+  IF w.news = 0 \/ w.cliEnd # "" THEN [codes |-> {}, now |-> FALSE]
+  ELSE CASE f.kind \in {"junk", "settings"} -> [codes |-> {-1}, now |-> TRUE]
+         [] f.kind \in {"msg", "more"} /\ w.rev = 1 /\ f.len > CliRoom(w) -> [codes |-> {8}, now |-> TRUE]
+         [] f.kind = "msg" /\ (w.sOpenD > 0 \/ f.len > f.size) -> [codes |-> {13}, now |-> FALSE]
+         [] f.kind = "more" /\ (w.sOpenD <= 0 \/ f.len > w.sOpenD) -> [codes |-> {13}, now |-> FALSE]
+         [] OTHER -> [codes |-> {}, now |-> FALSE]
+
 \* the event of a delivery carries the fields of the frame itself
 OWireRecv(f) ==
   /\ LET s == f.sid
          w == WSof(s)
      IN IF f.dir = "c2s"
-        THEN /\ ws' = SetWS(s, DelivC2S(f, w))
-             /\ tun' = tun
-        ELSE IF f.kind = "settings"
+        THEN IF SrvAlive /\ SrvTunnelViolation(f)
              THEN /\ ws' = ws
-                  /\ tun' = [tun EXCEPT !.settingsDeliv = TRUE, !.winC2S = f.win]
-             ELSE /\ ws' = SetWS(s, DelivS2C(f, w))
-                  /\ tun' = tun
+                  /\ tun' = [tun EXCEPT !.srvMustDie = TRUE, !.takenC2S = @ + 1]
+             ELSE LET v == SrvStreamViolation(f, w)
+                      w1 == DelivC2S(f, w)
+                      w2 == IF f.kind = "new" /\ SrvAlive /\ NewRefusal(f) # 0
+                            THEN [w1 EXCEPT !.sViol = {NewRefusal(f)}, !.sViolNow = TRUE]
+                            ELSE [w1 EXCEPT !.sViol = @ \cup v.codes, !.sViolNow = @ \/ v.now,
+                                            !.sViolD = @ \/ v.now]
+                  IN /\ ws' = SetWS(s, w2)
+                     /\ tun' = [tun EXCEPT !.takenC2S = @ + 1,
+                                           !.srvLastSeen = IF f.kind = "new" /\ SrvAlive THEN f.sid ELSE @]
+        ELSE IF tun.s2cDeliv = 0 /\ cfg.rawSrv = "neg" /\ RealCli
+             THEN \* the first frame from a negotiating server must be a well-formed settings frame
+                  \* naming a revision this client supports
+                  LET malformed == \/ f.kind # "settings" \/ f.sid # -1
+                             \* (a settings message listing no revisions means revision zero)
+                             \/ (Len(f.revs) > 0 /\ ~\E i \in 1..Len(f.revs) : f.revs[i] \in (IF cfg.cliNoFC THEN {0} ELSE {0, 1}))
+                  IN /\ ws' = ws
+                     /\ tun' = [tun EXCEPT !.s2cDeliv = 1, !.takenS2C = @ + 1, !.cliMustFailStart = malformed,
+                                           !.settingsDeliv = ~malformed, !.winC2S = IF malformed THEN @ ELSE f.win,
+                                           !.revUsed = IF malformed THEN -1
+                                                       ELSE IF ~cfg.cliNoFC /\ \E i \in 1..Len(f.revs) : f.revs[i] = 1 THEN 1 ELSE 0]
+             ELSE IF f.kind = "settings" /\ tun.s2cDeliv = 0
+             THEN /\ ws' = ws
+                  /\ tun' = [tun EXCEPT !.settingsDeliv = TRUE, !.winC2S = f.win, !.s2cDeliv = 1, !.takenS2C = @ + 1]
+             ELSE IF ~RealSrv /\ CliAlive /\ CliTunnelViolation(f)
+             THEN /\ ws' = ws
+                  /\ tun' = [tun EXCEPT !.cliMustDie = TRUE, !.s2cDeliv = @ + 1, !.takenS2C = @ + 1]
+             ELSE LET v == IF RealSrv THEN [codes |-> {}, now |-> FALSE] ELSE CliStreamViolation(f, w)
+                      w1 == IF f.kind = "settings" THEN w ELSE DelivS2C(f, w)
+                      w2 == [w1 EXCEPT !.cViol = @ \cup v.codes, !.cViolNow = @ \/ v.now, !.cViolD = @ \/ v.now,
+                                       !.cliEnd = IF v.now /\ w.cliEnd = "" THEN "violation" ELSE w1.cliEnd]
+                  IN /\ ws' = SetWS(s, w2)
+                     /\ tun' = [tun EXCEPT !.s2cDeliv = @ + 1, !.takenS2C = @ + 1]
   /\ QOff
   /\ UNCHANGED <<cfg, rp, bad, now, meta>>
 
@@ -477,6 +558,10 @@ OCtl(e) ==
 
 OCar(e) ==
   /\ tun' = IF e.what \in {"fail", "ctxdone", "srvgone"} THEN AddCause(tun, e.what)
+            \* a raw (driver-played) network end finishing its side
+            ELSE IF \/ e.what = "closeSend" /\ ((cfg.dir = "fwd" /\ ~RealCli) \/ (cfg.dir = "rev" /\ ~RealSrv))
+                    \/ e.what = "handlerReturn" /\ ((cfg.dir = "fwd" /\ ~RealSrv) \/ (cfg.dir = "rev" /\ ~RealCli))
+                 THEN AddCause(tun, "peerend")
             ELSE IF e.what = "marshalfail" THEN [ tun EXCEPT !.marshalFail = TRUE ]
             ELSE tun
   /\ ws' = IF e.what \in {"fail", "ctxdone", "marshalfail"} THEN AllLocal("tunnel") ELSE ws
@@ -530,6 +615,13 @@ OSkip ==
   /\ QOff
   /\ UNCHANGED <<cfg, ws, rp, tun, bad, now, meta>>
 
+\* the receive loop of the receiving end of direction e.dir asks for the next frame: it has
+\* finished processing frame number e.n
+OIdle(e) ==
+  /\ tun' = IF e.dir = "c2s" THEN [tun EXCEPT !.idleC2S = e.n] ELSE [tun EXCEPT !.idleS2C = e.n]
+  /\ QOff
+  /\ UNCHANGED <<cfg, ws, rp, bad, now, meta>>
+
 EventKinds == {"wire.send", "wire.recv", "op.start", "op.ret", "invoked", "ctl", "car", "tun", "open", "q",
                "reset", "step", "scenario"}
 
@@ -548,6 +640,7 @@ OEvent(e) ==
     [] e.ev = "reset"     -> OReset
     [] e.ev = "step"      -> OStep(e)
     [] e.ev = "scenario"  -> OScenario(e)
+    [] e.ev = "wire.idle" -> OIdle(e)
     [] OTHER              -> OSkip
 
 ---------------------------------------------------------------------------
@@ -560,19 +653,20 @@ OSids == DOMAIN ws
 IsPfx(a, b) == Len(a) <= Len(b) /\ \A i \in 1..Len(a) : a[i] = b[i]
 
 \* ---- C01 -----------------------------------------------------------------
-C01_SrvPrefix == \A r \in ORpcs : IsPfx(rp[r].gotS, rp[r].sentC)
-C01_CliPrefix == \A r \in ORpcs : IsPfx(rp[r].gotC, rp[r].sentS \o
+\* (what a raw peer "submitted" is not known to the monitor: these apply to real senders)
+C01_SrvPrefix == RealCli => \A r \in ORpcs : IsPfx(rp[r].gotS, rp[r].sentC)
+C01_CliPrefix == RealSrv => \A r \in ORpcs : IsPfx(rp[r].gotC, rp[r].sentS \o
                     (IF rp[r].hResp >= 0 THEN << <<r, "s", Len(rp[r].sentS), rp[r].hResp>> >> ELSE <<>>))
 C01_Intact    == \A r \in ORpcs : rp[r].intactS /\ rp[r].intactC
 \* handler saw end-of-stream => it obtained every message whose send had succeeded
-C01_CompleteAtEOF == \A r \in ORpcs : rp[r].sEOF => Len(rp[r].gotS) >= rp[r].okCatEOF
+C01_CompleteAtEOF == RealCli => \A r \in ORpcs : rp[r].sEOF => Len(rp[r].gotS) >= rp[r].okCatEOF
 \* caller saw OK => it obtained every message the handler sent
-C01_CompleteAtOK  == \A r \in ORpcs : rp[r].cRes.cls = "eof" =>
+C01_CompleteAtOK  == RealSrv => \A r \in ORpcs : rp[r].cRes.cls = "eof" =>
                         Len(rp[r].gotC) = rp[r].okS + (IF rp[r].hResp >= 0 THEN 1 ELSE 0)
 
 \* ---- C13 (wire conformance) ------------------------------------------------
 BadHas(c) == \E x \in bad : x[1] = c
-C13_SettingsFirst == ~BadHas("settings.not-first") /\ ~BadHas("settings.sid") /\ tun.settingsSent <= 1
+C13_SettingsFirst == ~BadHas("settings.not-first") /\ ~BadHas("settings.sid") /\ (RealSrv => tun.settingsSent <= 1)
 C13_Framing == /\ ~BadHas("framing.envelope-inside-message") /\ ~BadHas("framing.len>size")
                /\ ~BadHas("framing.continuation-without-message") /\ ~BadHas("framing.overrun-of-size")
                /\ ~BadHas("unknown-frame")
@@ -629,13 +723,31 @@ C08_AtMostOneInvocation == \A r \in ORpcs : rp[r].inv <= 1
 C08_RightHandler ==
   \A r \in ORpcs : (rp[r].inv > 0 /\ rp[r].cstart) => rp[r].invShape = rp[r].shape
 
+\* the tunnel ends only for a tunnel-level cause
+TunnelCause == tun.causes # {}
+
 \* ---- C11 -------------------------------------------------------------------
 C11_Revision == ~BadHas("neg.rev")
 C11_LegacyClean == ~BadHas("legacy.wu") /\ ~BadHas("legacy.settings")
 
+\* settings are sent exactly when the tunnel client advertised negotiation; Start/Serve complete
+\* (or fail) instead of hanging once the first server frame (or the peer's end) was delivered
+C11_SettingsIff ==
+  (q.at /\ RealSrv /\ tun.opened /\ q.parked = <<>> /\ tun.causes = {}) =>
+     tun.settingsSent = (IF cfg.rawCli = "legacy" THEN 0 ELSE 1)
+C11_StartCompletes ==
+  (q.at /\ RealCli /\ tun.opened /\ q.parked = <<>> /\ cfg.dir = "fwd") =>
+     /\ (cfg.rawSrv = "legacy" \/ tun.s2cDeliv >= 1 \/ tun.causes # {}) => (tun.started \/ tun.startFail)
+     \* (Start may also hand out a channel that is already failed)
+     /\ (tun.started /\ ~RealSrv /\ tun.cliMustFailStart) => (q.chdone /\ tun.chErr = "err")
+\* window updates are used exactly when flow control is in use on the stream
+\* a well-formed settings frame (stream id -1, a revision list that is empty - meaning revision
+\* zero - or names a revision the client supports) never makes the client give up
+C11_WellFormedSettingsAccepted ==
+  (RealCli /\ ~RealSrv /\ (tun.startFail \/ tun.chdone) /\ tun.s2cDeliv = 1 /\ ~TunnelCause) => tun.cliMustFailStart
+C11_FlowControlIff == \A s \in OSids : ws[s].rev = 0 => ((RealCli => ws[s].cWuSum = 0) /\ (RealSrv => ws[s].sWuSum = 0))
+
 \* ---- C03 / C04 ------------------------------------------------------------------
-\* the tunnel ends only for a tunnel-level cause
-TunnelCause == tun.causes # {}
 C03_TunnelSurvives ==
   (RealCli /\ RealSrv) => ((tun.chdone \/ tun.serveRet \/ tun.startFail) => TunnelCause)
 
@@ -691,7 +803,7 @@ LocalOK(r, res) ==
   \/ 1 \in rp[r].localCause /\ res.cls = "err" /\ res.code = 1
   \/ 4 \in rp[r].localCause /\ res.cls = "err" /\ res.code = 4
   \/ rp[r].sid \in OSids /\ ws[rp[r].sid].cliEnd = "tunnel" /\ res.cls = "err"
-  \/ (tun.causes # {} \/ tun.marshalFail \/ tun.chdone) /\ res.cls = "err"
+  \/ (tun.causes # {} \/ tun.marshalFail \/ tun.chdone \/ tun.cliMustDie) /\ res.cls = "err"
 C07_OneLegalOutcome ==
   \A r \in ORpcs : (RealSrv /\ rp[r].cRes.cls # "none") =>
      \/ rp[r].sid \in OSids /\ ws[rp[r].sid].closeDeliv /\ ResMatchesClose(rp[r].cRes, ws[rp[r].sid].close)
@@ -709,7 +821,7 @@ C07_HandlerReleased ==
      /\ \A b \in BlockedOps : ~(b[1] = "s" /\ b[2] = ws[s].rpc)
 
 \* ---- C04 -------------------------------------------------------------------
-RealCause == tun.causes \cap {"close", "ctxcancel", "fail", "ctxdone", "stop", "teardown", "srvgone"} # {}
+RealCause == tun.causes \cap {"close", "ctxcancel", "fail", "ctxdone", "stop", "teardown", "srvgone", "peerend"} # {}
 QuietWire == q.qc2s = 0 /\ q.qs2c = 0
 C04_CallsEnd == (q.at /\ q.chdone) => \A b \in BlockedOps : b[1] # "c"
 C04_HandlersReleased ==
@@ -751,12 +863,12 @@ C14_ServerTableExact ==
 \* after the tunnel was opened (whatever happened in between)
 C14_GoroutinesBaseline ==
   (q.at /\ q.g >= 0 /\ tun.baseG >= 0 /\ q.ctab <= 0 /\ q.stab = 0 /\ q.h = <<>> /\ q.blocked = <<>>
-        /\ q.parked = <<>>) => q.g <= tun.baseG
+        /\ q.parked = <<>> /\ FCExpected) => q.g <= tun.baseG
 \* once both ends of the tunnel are gone and no handler runs and no call is blocked, no goroutine
 \* started on the tunnel's behalf remains (long before the harness tears anything down)
 C14_NothingAfterBothEnds ==
   (q.at /\ q.g >= 0 /\ q.chdone /\ q.nsrv = 0 /\ tun.serveRet /\ q.h = <<>> /\ q.blocked = <<>> /\ q.parked = <<>>
-        /\ QuietWire) => q.g = 0
+        /\ QuietWire /\ FCExpected) => q.g = 0
 C14_NothingAfterTunnel ==
   (q.at /\ q.final) => q.g = 0 /\ q.ctab <= 0 /\ q.stab = 0 /\ q.nsrv = 0
 
@@ -782,6 +894,56 @@ C16_NoSuccessOnWrongCount ==
   \A r \in ORpcs : (rp[r].shape \in {"unary", "cstream"} /\ Len(rp[r].gotC) >= 1 /\ rp[r].sid \in OSids) =>
      LET w == ws[rp[r].sid] IN w.sMsgsD = 1 /\ w.closeDeliv /\ w.close.code = 0
 
+\* ---- C09 -------------------------------------------------------------------
+\* tunnel-level: the server ends the tunnel exactly for a tunnel-level violation (or a
+\* tunnel-level cause), and has done so by the next quiescent point
+C09_SrvTunnelLevel ==
+  RealSrv => /\ (tun.serveRet /\ ~RealCli) => (tun.srvMustDie \/ TunnelCause)
+             /\ (q.at /\ q.parked = <<>> /\ tun.srvMustDie) => tun.serveRet
+C09_CliTunnelLevel ==
+  RealCli => /\ ((tun.chdone \/ tun.startFail) /\ ~RealSrv) => (tun.cliMustDie \/ tun.cliMustFailStart \/ TunnelCause)
+             /\ (q.at /\ q.parked = <<>> /\ (tun.cliMustDie \/ tun.cliMustFailStart)) => (q.chdone \/ tun.startFail)
+\* stream-level: a violation that the endpoint must notice on delivery has failed exactly that
+\* stream with the documented status by the next quiescent point; a close frame for a stream
+\* with violations carries a status one of them (or the handler's own return) justifies
+C09_SrvStreamLevel ==
+  (RealSrv /\ ~RealCli) => \A s \in OSids :
+     /\ (q.at /\ q.parked = <<>> /\ ws[s].sViolNow /\ SrvAlive /\ ~tun.serveRet) => ws[s].sClose = 1
+     /\ (ws[s].sViol # {} /\ ws[s].sClose >= 1 /\ ~ws[s].cancelDeliv /\ SrvAlive) =>
+           \/ ws[s].close.code \in ws[s].sViol
+           \/ ws[s].rpc \in ORpcs /\ rp[ws[s].rpc].hRetStarted /\ ws[s].close.code = rp[ws[s].rpc].hRet.code
+C09_CliStreamLevel ==
+  (RealCli /\ ~RealSrv) => \A r \in ORpcs : (rp[r].sid \in OSids /\ rp[r].cRes.cls # "none") =>
+     LET w == ws[rp[r].sid] IN
+     \/ w.closeDeliv /\ ResMatchesClose(rp[r].cRes, w.close)
+     \/ LocalOK(r, rp[r].cRes)
+     \/ w.cViol # {} /\ rp[r].cRes.cls = "err" /\ rp[r].cRes.code \in w.cViol
+     \* shape enforcement: zero or several responses where exactly one is due
+     \/ rp[r].shape \in {"unary", "cstream"} /\ rp[r].cRes.cls = "err" /\ rp[r].cRes.code = 13
+     \/ rp[r].shape \in {"unary", "cstream"} /\ w.sMsgsD = 0 /\ w.closeDeliv /\ w.close.code = 0
+          /\ (rp[r].cRes.cls = "eof" \/ (rp[r].cRes.cls = "err" /\ rp[r].cRes.code = -1))
+\* a caller whose stream was hit by a violation noticed on delivery is not left blocked
+C09_CliReleased ==
+  (q.at /\ q.parked = <<>> /\ RealCli /\ ~RealSrv) => \A b \in BlockedOps :
+     (b[1] = "c" /\ b[2] \in ORpcs /\ rp[b[2]].sid \in OSids) => ~ws[rp[b[2]].sid].cViolNow
+\* the receive loops are never wedged: at a quiescent point they wait for the next frame or have
+\* returned (flow control negotiated)
+C09_NotWedged ==
+  (q.at /\ q.parked = <<>> /\ FCExpected /\ cfg.cap = 0) =>
+     /\ (RealSrv /\ tun.opened /\ tun.idleC2S >= 0) => (tun.idleC2S = tun.takenC2S \/ tun.serveRet)
+     /\ (RealCli /\ tun.idleS2C >= 0) => (tun.idleS2C = tun.takenS2C \/ tun.chdone \/ tun.startFail \/ q.chdone)
+\* nothing is buffered beyond a window per stream: what was delivered and not credited fits, or
+\* the stream has been failed
+C09_BoundedBuffer ==
+  (q.at /\ q.parked = <<>>) => \A s \in OSids :
+     /\ (RealSrv /\ ~RealCli /\ ws[s].rev = 1 /\ ws[s].newDeliv /\ ~ws[s].halfDeliv /\ SrvAlive /\ ~tun.serveRet) =>
+           (ws[s].cDataSum - ws[s].sWuSum <= W \/ ws[s].sClose >= 1)
+     /\ (RealCli /\ ~RealSrv /\ ws[s].rev = 1 /\ ws[s].news > 0 /\ CliAlive) =>
+           (ws[s].sDataSum - ws[s].cWuSum <= W \/ ws[s].cliEnd # "")
+
+\* ---- C08 (stale ids) -------------------------------------------------------
+C08_StaleIdEndsTunnel == C09_SrvTunnelLevel
+
 \* ---- C08 (completion) -----------------------------------------------------
 C08_ExactlyOneWhenCompleted ==
   \A r \in ORpcs : (RealSrv /\ RealCli /\ rp[r].cRes.cls # "none" /\ rp[r].sid \in OSids /\ ws[rp[r].sid].cliEnd = "close") =>
@@ -801,7 +963,8 @@ Formulas == [
   C05_CreditExact |-> C05_CreditExact, C05_BlockedOnlyWhenFull |-> C05_BlockedOnlyWhenFull,
   C08_IdsIncreasing |-> C08_IdsIncreasing, C08_NewFirst |-> C08_NewFirst,
   C08_AtMostOneInvocation |-> C08_AtMostOneInvocation, C08_RightHandler |-> C08_RightHandler,
-  C11_Revision |-> C11_Revision, C11_LegacyClean |-> C11_LegacyClean,
+  C11_Revision |-> C11_Revision, C11_LegacyClean |-> C11_LegacyClean, C11_SettingsIff |-> C11_SettingsIff,
+  C11_StartCompletes |-> C11_StartCompletes, C11_WellFormedSettingsAccepted |-> C11_WellFormedSettingsAccepted, C11_FlowControlIff |-> C11_FlowControlIff,
   C03_TunnelSurvives |-> C03_TunnelSurvives, C03_BystandersComplete |-> C03_BystandersComplete,
   C02_ResultOnce |-> C02_ResultOnce, C02_CloseCarriesHandlerStatus |-> C02_CloseCarriesHandlerStatus,
   C02_StatusExact |-> C02_StatusExact, C02_TrailersAtTerminal |-> C02_TrailersAtTerminal,
@@ -818,7 +981,10 @@ Formulas == [
   C10_StopMeansStopped |-> C10_StopMeansStopped,
   C16_SecondSendRefused |-> C16_SecondSendRefused, C16_OneRequestOnly |-> C16_OneRequestOnly,
   C16_NoSuccessOnWrongCount |-> C16_NoSuccessOnWrongCount,
-  C08_ExactlyOneWhenCompleted |-> C08_ExactlyOneWhenCompleted
+  C08_ExactlyOneWhenCompleted |-> C08_ExactlyOneWhenCompleted, C08_StaleIdEndsTunnel |-> C08_StaleIdEndsTunnel,
+  C09_SrvTunnelLevel |-> C09_SrvTunnelLevel, C09_CliTunnelLevel |-> C09_CliTunnelLevel,
+  C09_SrvStreamLevel |-> C09_SrvStreamLevel, C09_CliStreamLevel |-> C09_CliStreamLevel,
+  C09_CliReleased |-> C09_CliReleased, C09_NotWedged |-> C09_NotWedged, C09_BoundedBuffer |-> C09_BoundedBuffer
 ]
 
 =============================================================================
